@@ -26,7 +26,7 @@ type Mix struct {
 
 var (
 	mixWorkload = Mix{Reg: 2, Lock: 6, Unlock: 4, Collect: 3, PayFees: 5, Kill: 2, Shutdown: 2, Settings: 2, Check: 0, Block: 5, Clock: 2, Replay: 2, Junk: 2, Alloc: 1}
-	mixC11      = Mix{Reg: 2, Lock: 8, Unlock: 7, Collect: 4, PayFees: 4, Kill: 1, Shutdown: 1, Settings: 1, Check: 0, Block: 5, Clock: 3, Replay: 2, Junk: 2, Alloc: 1}
+	mixC11      = Mix{Reg: 2, Lock: 8, Unlock: 7, Collect: 4, PayFees: 4, Kill: 2, Shutdown: 1, Settings: 1, Check: 2, Block: 5, Clock: 3, Replay: 2, Junk: 2, Alloc: 1}
 	mixC10      = Mix{Reg: 2, Lock: 6, Unlock: 2, Collect: 2, PayFees: 7, Kill: 1, Shutdown: 1, Settings: 3, Check: 5, Block: 5, Clock: 1, Replay: 1, Junk: 1}
 	mixC22      = Mix{Reg: 2, Lock: 5, Unlock: 2, Collect: 2, PayFees: 10, Kill: 2, Shutdown: 0, Settings: 4, Check: 0, Block: 6, Clock: 1, Replay: 2, Junk: 1}
 	mixC23      = Mix{Reg: 2, Lock: 5, Unlock: 3, Collect: 2, PayFees: 4, Kill: 6, Shutdown: 6, Settings: 2, Check: 3, Block: 5, Clock: 1, Replay: 2, Junk: 1, Alloc: 2}
@@ -86,6 +86,20 @@ func genExtra(mix Mix) func(r *sim.RNG, p *sim.Plan, tier string) {
 			// more than one rewarded sharder (the shipped setting is 1)
 			steps = append(steps, sim.Step{Op: "st.settings", I: []int64{int64(14 + sw.Intn(2)), 0, 0}})
 		}
+		if sw.Intn(3) == 0 {
+			// stakes that a kill slashes to exactly zero: kill_slash = 1, or a minimum stake of 0 and 1-unit stakes
+			if k := sw.Intn(3); k == 0 {
+				steps = append(steps, sim.Step{Op: "st.settings", I: []int64{2, 2, 0}})
+			} else if k == 1 {
+				// kill_slash = 0: the pool must still be marked dead (and keeps its stakes)
+				steps = append(steps, sim.Step{Op: "st.settings", I: []int64{3, 2, 0}})
+			} else {
+				steps = append(steps, sim.Step{Op: "st.settings", I: []int64{13, 2, 0}})
+				for j := 0; j < 3; j++ {
+					steps = append(steps, sim.Step{Op: "st.lock", A: sw.Intn(20), I: []int64{int64(3 + sw.Intn(2)), int64(sw.Intn(8)), 11, 0, 0}})
+				}
+			}
+		}
 		if mix.Alloc > 0 && sw.Intn(3) == 0 {
 			steps = append(steps, sim.Step{Op: "st.alloc", A: sw.Intn(20), I: []int64{0, int64(sw.Intn(3))}})
 		}
@@ -104,7 +118,7 @@ func genExtra(mix Mix) func(r *sim.RNG, p *sim.Plan, tier string) {
 			case 1:
 				main = append(main, sim.Step{Op: "st.lock", A: sw.Intn(20), I: []int64{int64(sw.Pick([]int{6, 1, 1, 1, 1, 1})), int64(sw.Intn(32)), int64(sw.Pick([]int{6, 4, 2, 2, 2, 2, 2, 2, 1, 1, 1, 1, 4, 4})), int64(sw.Pick([]int{6, 4, 1, 1})), fault()}})
 			case 2:
-				main = append(main, sim.Step{Op: "st.unlock", A: sw.Intn(20), I: []int64{int64(sw.Pick([]int{6, 1, 1, 1, 1, 1})), int64(sw.Intn(32)), int64(sw.Pick([]int{8, 2})), int64(sw.Intn(8)), int64(sw.Pick([]int{6, 4, 1})), fault()}})
+				main = append(main, sim.Step{Op: "st.unlock", A: sw.Intn(20), I: []int64{int64(sw.Pick([]int{6, 1, 1, 1, 1, 1})), int64(sw.Intn(32)), int64(sw.Pick([]int{8, 2})), int64(sw.Intn(8)), int64(sw.Pick([]int{6, 4, 1})), fault(), int64(sw.Pick([]int{5, 1}))}})
 			case 3:
 				main = append(main, sim.Step{Op: "st.collect", A: sw.Intn(20), I: []int64{int64(sw.Pick([]int{6, 1, 1, 1, 1, 1})), int64(sw.Intn(32)), int64(sw.Pick([]int{6, 3, 2})), int64(sw.Intn(8)), int64(sw.Pick([]int{6, 4, 1})), fault()}})
 			case 4:
@@ -503,9 +517,15 @@ func (x *Ops) clientOf(id string) *ledger.Client {
 	return nil
 }
 
-// st.unlock: A = actor, I = [kind, k, who (0 delegate #j, 1 actor A), j, fee kind, fault]
+// st.unlock: A = actor, I = [kind, k, who (0 delegate #j, 1 actor A), j, fee kind, fault, wait (0: first
+// let stakepool.min_lock_period + 1 s pass on the simulated clock, 1: unlock right away)]
 func (x *Ops) opUnlock(r *ledger.Runner, st sim.Step) {
 	r.EnsureBlock()
+	if st.Int(6, 0) == 0 {
+		x.W.Advance(int64(config.SmartContractConfig.GetDuration("stakepool.min_lock_period").Seconds()) + 1)
+	} else {
+		x.W.Tr.Fault("unlock_without_waiting_for_lock_period")
+	}
 	contract, req, p := x.target(r, st.Int(0, 0), st.Int(1, 0), st.Int(5, 0))
 	from, cl := x.delegate(r, p, st.Int(2, 0), st.Int(3, 0), st.A)
 	if st.Int(2, 0) == 1 {
@@ -686,7 +706,7 @@ var minerSettings = [][2]string{
 var storageSettings = [][2]string{
 	{"stakepool.kill_slash", "0.5"}, {"stakepool.kill_slash", "0.25"}, {"stakepool.kill_slash", "1"}, {"stakepool.kill_slash", "0"}, {"stakepool.kill_slash", "0.1"},
 	{"max_delegates", "2"}, {"max_delegates", "200"}, {"min_stake", "0.01"}, {"min_stake", "1.5"}, {"max_stake", "20000"}, {"max_stake", "3"},
-	{"max_charge", "0.5"}, {"max_charge", "0.2"},
+	{"max_charge", "0.5"}, {"max_charge", "0.2"}, {"min_stake", "0"},
 }
 
 // st.settings: A = actor, I = [which, contract selector, fault (any non-zero: a non-owner sends it)]
@@ -702,7 +722,11 @@ func (x *Ops) opSettings(r *ledger.Runner, st sim.Step) {
 		to, tbl = ledger.AddrStorage, storageSettings
 	}
 	kv := tbl[int(st.Int(0, 0))%len(tbl)]
-	x.submit(r, from, cl, to, "update_settings", config.StringMap{Fields: map[string]string{kv[0]: kv[1]}}, 0, 0)
+	o := x.submit(r, from, cl, to, "update_settings", config.StringMap{Fields: map[string]string{kv[0]: kv[1]}}, 0, 0)
+	if to == ledger.AddrStorage && o.Class == ledger.Success {
+		// the storage contract applies staged changes with the generator's built-in commit transaction
+		x.submitRaw(r, r.BC.Miner.ID, r.BC.Miner.Client, ledger.AddrStorage, "commit_settings_changes", "{}", 0, 2)
+	}
 }
 
 // st.clock: I = [kind]: +1 s, +61 s, min_lock_period + 1 s, +1 day, +30 days
